@@ -142,11 +142,18 @@ class Ctx(object):
 
     def case(self, case, nontrivial, key=None):
         """count one evaluated case; `nontrivial` by the property's rule; distinct by content"""
+        self.drain(case)
         self.evaluations += 1
         if nontrivial:
             self.nontrivial.add(jhash(case if key is None else key))
         if len(self.samples) < 3 and nontrivial:
             self.samples.append(case)
+
+    def drain(self, case):
+        """inconsistencies noticed by the shared evaluation helpers while this case was being evaluated"""
+        import typing_h
+        while typing_h.PENDING:
+            self.fail(typing_h.PENDING.pop(0), case)
 
     def fail(self, what, case, key=None):
         """the property fails on `case` on the real implementation"""
